@@ -174,6 +174,8 @@ class SQ:
                     c = e.call('query::condition::Condition::add::<query::condition::Condition>', [c, self.cond(m)])
                 elif m[0] == 'opt':
                     c = e.call('query::condition::Condition::add_option::<expr::SimpleExpr>', [c, some(self.expr(m[1]))])
+                elif m[0] == 'optg':
+                    c = e.call('query::condition::Condition::add_option::<query::condition::Condition>', [c, some(self.cond(m[1]))])
                 else:
                     c = e.call('query::condition::Condition::add::<expr::SimpleExpr>', [c, self.expr(m)])
             if t[1]: c = e.call('query::condition::Condition::not', [c])
